@@ -8,7 +8,8 @@ import NixModel.Pure.DimLink
 `nixio/dimensions.py` and renders their bodies as lists of `LStmt` (`Generated/LinkShape.lean`).
 `runWrites` executes the *writing* statements on the model state; `Props/C05.lean` proves that the
 generated bodies, executed, are the model's `attachLink` / `removeLink` / `setTicks` writes, and that in
-every generated body all checks come before the first write.
+every generated body all checks come before the first write.  The DataFrame branch of the `DimensionLink.unit`
+getter / setter is rendered as `UStmt` (below).
 -/
 namespace Nix.DimLink
 
@@ -58,5 +59,77 @@ def execWrite (a : LArgs) (s : DState) : LStmt → DState
   | _ => s
 
 def runWrites (a : LArgs) (body : List LStmt) (s : DState) : DState := body.foldl (execWrite a) s
+
+/-! ## the unit of a dimension link to a frame column (`DimensionLink.unit`, DataFrame branch)
+
+The translator renders the DataFrame branch of the getter and of the setter statement by statement; `runUnitGetter`
+/ `runUnitSetter` execute them on a frame's content the way Python would (a missing `units` attribute is `None`:
+subscripting or copying it raises TypeError).  `Props/C05.lean` proves that the generated bodies are the model's
+`linkFrameUnit` / `setFrameUnit` for every frame, column and value. -/
+
+inductive UStmt where
+  | readUnits                 -- `units = lobj.get_attr("units")`
+  | noneIfNoUnits             -- `if units is None: return None`
+  | pickEntry                 -- `unit = units[self.index]`
+  | returnEmptyAsNone         -- `return unit if unit != "" else None`
+  | emptyPerColumnIfNoUnits   -- `if units is None: units = [""] * len(lobj.group["data"].dtype.names)`
+  | copyList                  -- `units = list(units)`
+  | putEntryNoneAsEmpty       -- `units[self.index] = unit if unit is not None else ""`
+  | writeUnits                -- `lobj.set_attr("units", units)`
+  deriving DecidableEq, Repr, Inhabited
+
+/-- the locals of the branch: `units`, `unit` (getter), what the function returned / raised so far, and what was
+handed to `set_attr("units", …)` (`some none`: `set_attr` with None removes the attribute) -/
+structure UState where
+  units : Option (List String) := none
+  picked : Option String := none
+  result : Option (Except Err (Option String)) := none
+  written : Option (Option (List String)) := none
+
+def execU (fd : FrameData) (c : Nat) (v : Option String) (st : UState) (stmt : UStmt) : UState :=
+  if st.result.isSome then st          -- the function has returned or raised
+  else match stmt with
+    | .readUnits => { st with units := fd.units }
+    | .noneIfNoUnits => if st.units.isNone then { st with result := some (.ok none) } else st
+    | .pickEntry =>
+      match st.units with
+      | none => { st with result := some (.error .typeError) }       -- 'NoneType' object is not subscriptable
+      | some us =>
+        match us[c]? with
+        | some u => { st with picked := some u }
+        | none => { st with result := some (.error .indexError) }
+    | .returnEmptyAsNone =>
+      match st.picked with
+      | some u => { st with result := some (.ok (readUnit u)) }
+      | none => { st with result := some (.error .runtimeError) }    -- (UnboundLocalError: never with a generated body)
+    | .emptyPerColumnIfNoUnits =>
+      if st.units.isNone then { st with units := some (List.replicate fd.cols.length "") } else st
+    | .copyList =>
+      match st.units with
+      | none => { st with result := some (.error .typeError) }       -- 'NoneType' object is not iterable
+      | some _ => st
+    | .putEntryNoneAsEmpty =>
+      match st.units with
+      | none => { st with result := some (.error .typeError) }
+      | some us =>
+        if c < us.length then { st with units := some (us.set c (unitText v)) }
+        else { st with result := some (.error .indexError) }
+    | .writeUnits => { st with written := some st.units }
+
+/-- the getter's branch: what it returns (falling off the end returns None) -/
+def runUnitGetter (body : List UStmt) (fd : FrameData) (c : Nat) : Except Err (Option String) :=
+  match (body.foldl (execU fd c none) {}).result with
+  | some r => r
+  | none => .ok none
+
+/-- the setter's branch: the frame's content afterwards (or the exception) -/
+def runUnitSetter (body : List UStmt) (fd : FrameData) (c : Nat) (v : Option String) : Except Err FrameData :=
+  let st := body.foldl (execU fd c v) {}
+  match st.result with
+  | some (.error e) => .error e
+  | _ =>
+    match st.written with
+    | some us => .ok { fd with units := us }
+    | none => .ok fd
 
 end Nix.DimLink
